@@ -139,3 +139,41 @@ type Stamp struct {
 	By  string
 	Rev int
 }
+
+// Sprite embeds types that are not structs: a union, an enum without a zero
+// constant and a named slice of another package. They stay ordinary fields.
+type Sprite struct {
+	Shape
+	Sparse
+	unit.Tags
+	Name string
+}
+
+// Animal: Cat and Dog are members through the marker method they get from the
+// struct they embed.
+type Animal interface {
+	isAnimal()
+}
+
+type AnimalBase struct {
+	Legs int
+}
+
+func (AnimalBase) isAnimal() {}
+
+type Cat struct {
+	AnimalBase
+	Name string
+}
+
+type Dog struct {
+	AnimalBase
+	Loud bool
+}
+
+type Herd []Animal
+
+type Zoo struct {
+	Star    Animal
+	Animals Herd
+}
